@@ -701,6 +701,7 @@ coap_new_context(const coap_address_t *listen_addr) {
     if (!c->dtls_context) {
       coap_log_emerg("coap_init: no DTLS context available\n");
       coap_free_context_lkd(c);
+      coap_lock_unlock(c);
       return NULL;
     }
   }
@@ -725,6 +726,7 @@ coap_new_context(const coap_address_t *listen_addr) {
 
 #if defined(COAP_EPOLL_SUPPORT) || COAP_SERVER_SUPPORT
 onerror:
+  coap_lock_unlock(c);
   coap_free_type(COAP_CONTEXT, c);
   return NULL;
 #endif /* COAP_EPOLL_SUPPORT || COAP_SERVER_SUPPORT */
